@@ -136,3 +136,72 @@ example : ∑ i ∈ range 4, ((fun i => ys i + [1/2, -1/2, 0, 1/2].getD i 0) i -
 end Examples
 
 end TWV.C16
+
+/-! ## Added with translator T15: how the default smoothing condition behaves under changes of the data
+
+`Gen.spline_smooth` (tied in `TWV/Tie/SmoothGlue.lean`) hands `defaultS y` to FITPACK when `s` is not given.
+The condition does not depend on the level of the data, scales with the square of its unit, and agrees in
+exact arithmetic with the raw-moment formula `sum(y²) - n · mean²`. -/
+
+namespace TWV.C16
+open TWV TWV.Process Finset
+
+variable {K : Type} [Field K] [LinearOrder K] [IsStrictOrderedRing K]
+
+theorem mean_shift (y : ℕ → K) (n : ℕ) (c : K) (hn : n ≠ 0) :
+    mean (fun i => y i + c) n = mean y n + c := by
+  have hne : (n : K) ≠ 0 := by exact_mod_cast hn
+  rw [Process.mean_eq, Process.mean_eq, sum_add_distrib, sum_const, card_range, nsmul_eq_mul, add_div,
+    mul_div_cancel_left₀ _ hne]
+
+theorem mean_scale (y : ℕ → K) (n : ℕ) (c : K) : mean (fun i => c * y i) n = c * mean y n := by
+  rw [Process.mean_eq, Process.mean_eq, ← mul_sum, mul_div_assoc]
+
+/-- shift invariance: adding a constant to every sample leaves the default smoothing condition unchanged -/
+theorem defaultS_shift (y : ℕ → K) (n : ℕ) (c : K) (hn : n ≠ 0) :
+    defaultS (fun i => y i + c) n = defaultS y n := by
+  rw [Process.defaultS_eq _ n hn, Process.defaultS_eq _ n hn, mean_shift y n c hn]
+  apply sum_congr rfl
+  intro i _; ring
+
+/-- a change of unit `y ↦ c · y` multiplies the default smoothing condition by `c²` -/
+theorem defaultS_scale (y : ℕ → K) (n : ℕ) (c : K) :
+    defaultS (fun i => c * y i) n = c ^ 2 * defaultS y n := by
+  by_cases hn : n = 0
+  · subst hn; simp [defaultS]
+  · rw [Process.defaultS_eq _ n hn, Process.defaultS_eq _ n hn, mean_scale, mul_sum]
+    apply sum_congr rfl
+    intro i _; ring
+
+/-- the raw-moment form: `len(y) · var(y) = sum(y²) - n · mean²` (the two formulae agree exactly) -/
+theorem defaultS_raw_moment (y : ℕ → K) (n : ℕ) (hn : n ≠ 0) :
+    defaultS y n = ∑ i ∈ range n, y i ^ 2 - (n : K) * mean y n ^ 2 := by
+  have hne : (n : K) ≠ 0 := by exact_mod_cast hn
+  have hs : ∑ i ∈ range n, y i = (n : K) * mean y n := by
+    rw [Process.mean_eq, mul_div_cancel₀ _ hne]
+  rw [Process.defaultS_eq y n hn]
+  have h : ∀ i, (y i - mean y n) ^ 2 = y i ^ 2 - 2 * mean y n * y i + mean y n ^ 2 := fun i => by ring
+  simp only [h]
+  rw [sum_add_distrib, sum_sub_distrib, ← mul_sum, hs, sum_const, card_range, nsmul_eq_mul]
+  ring
+
+/-- hence the bound FITPACK works with under the default is the same for `y` and `y + c` -/
+theorem smooth_default_shift (fit y : ℕ → K) (n : ℕ) (tol c : K) (hn : n ≠ 0)
+    (hfit : ∑ i ∈ range n, (fit i - (y i + c)) ^ 2 ≤ defaultS (fun i => y i + c) n * (1 + tol)) :
+    ∑ i ∈ range n, ((fit i - c) - y i) ^ 2 ≤ defaultS y n * (1 + tol) := by
+  rw [defaultS_shift y n c hn] at hfit
+  have h : ∀ i, ((fit i - c) - y i) ^ 2 = (fit i - (y i + c)) ^ 2 := fun i => by ring
+  simp only [h]; exact hfit
+
+section Examples2
+
+/-- `ys = 1, 3, 2, 6`: `defaultS = 14`; shifted by 10 still `14`; in units of a third, `9 · 14`;
+raw moments `50 - 4 · 3²` -/
+example : defaultS (fun i => ys i + 10) 4 = 14 := by decide +kernel
+example : defaultS (fun i => 3 * ys i) 4 = 3 ^ 2 * 14 := by decide +kernel
+example : ∑ i ∈ range 4, ys i ^ 2 - ((4 : ℕ) : ℚ) * mean ys 4 ^ 2 = 14 ∧ defaultS ys 4 = 14 := by
+  decide +kernel
+
+end Examples2
+
+end TWV.C16
